@@ -1325,8 +1325,15 @@ pub fn suite_race(ctx: &mut Ctx, seed: u64, n: usize, opname: &str) {
             if cands.is_empty() {
                 continue;
             }
-            let target = (*crng.pick(&cands)).path.clone();
-            (0..nthreads).map(|_| Op::RemoveAll { path: target.clone() }).collect()
+            let picked = *crng.pick(&cands);
+            let target_is_dir = picked.kind == Kind::Dir;
+            let target = picked.path.clone();
+            // in every fourth round every other thread spells the entry with a parent part that runs through the entry
+            // itself (`x/../x`): the same entry, another spelling of the path
+            let last = target.rsplit(|c| *c == b'/').next().unwrap_or(b"").to_vec();
+            let through: Vec<u8> = [target.as_slice(), b"/../", last.as_slice()].concat();
+            let spelled = i % 4 == 3 && target_is_dir; // (`file/..` is ENOTDIR for the kernel too)
+            (0..nthreads).map(|k| Op::RemoveAll { path: if spelled && k % 2 == 1 { through.clone() } else { target.clone() } }).collect()
         };
         let (top, rootdir) = setup_case_dir(ctx, "case", &spec);
         // make the subtree to remove bigger so that the threads really overlap
